@@ -393,7 +393,7 @@ def run(ctx):
             rest = [e for e in E if e[0] != "expr"]
             step = max(1, len(rest) // (cap - len(fixed)))
             E = fixed + rest[::step][:cap - len(fixed)]
-            ctx.note("pool_subsampled", "%s: %d entries kept by fixed stride" % (cls, len(E)))
+            ctx.cap_hit("%s pool: %d entries kept by fixed stride (all hand-written entries kept)" % (cls, len(E)))
         ctx.count("states", len(E))
         ctx.note("pool_sizes", "%s=%d" % (cls, len(E)))
         singles = [("single", dict(cls=cls, a=e)) for e in E]
